@@ -654,6 +654,12 @@ func main() {
 	for i := 0; i < nr; i++ {
 		h.repl(genReplEntry(h.rng), i%5 == 0, "repl:generated")
 	}
+	nl := 0
+	for _, e := range longReplEntries(h.rng, thorough) {
+		h.repl(e.text, e.emit, e.tag)
+		nl++
+	}
+	out.Extra["impl_repl_long_line_entries"] = nl
 	phase("7-repl")
 	out.Extra["impl_repl_comparisons"] = h.nRepl
 	out.Extra["impl_repl_failures"] = h.failR
